@@ -78,6 +78,8 @@ structure WSt where
   wire : List Tok := []         -- what reached the console so far
   cn : CursorState := {}        -- cursorNext
   cl : CursorState := {}        -- cursorLast
+  suspended : Bool := false     -- vx.suspended
+  closed : Bool := false        -- vx.closed
   fresh : Bool := true          -- the writer was just created: `newWriter` builds its buffer with
                                 -- `bytes.NewBuffer(make([]byte, 8192))`, i.e. 8192 NUL bytes already in it, so the
                                 -- first group is written without prologue (buf.Len() ≠ 0) and always takes the
@@ -108,6 +110,12 @@ def interp (e : Env) : Nat → List S → WSt → WSt
   | 0, _, w => w
   | _ + 1, [], w => w
   | fuel + 1, s :: rest, w =>
+    -- an early `return` under a true guard ends the function; such guards read Vaxis's own two
+    -- state flags (`if vx.closed { return }`, `if vx.suspended { return nil }`)
+    if (match s with
+        | .other (.v "suspended") src => w.suspended && src.startsWith "return"
+        | .other (.v "closed") src => w.closed && src.startsWith "return"
+        | _ => false) then w else
     let w' : WSt :=
       match s with
       | .write g x => if evalG e g then { w with buf := w.buf ++ wToks e x } else w
@@ -126,6 +134,9 @@ def interp (e : Env) : Nat → List S → WSt → WSt
           if src = "_, col := vx.CursorPosition()" then { w with wire := w.wire ++ toksOf "\x1b[6n" }
           else if src = "vx.cursorLast.style = vx.userCursorStyle" then { w with cl := { w.cl with style := e.userCursorStyle } }
           else if src = "err := vx.openTty(tgts)" then { w with fresh := true }     -- openTty calls newWriter
+          else if src = "vx.suspended = true" then { w with suspended := true }
+          else if src = "vx.suspended = false" then { w with suspended := false }
+          else if src = "vx.closed = true" then { w with closed := true }
           else w
     interp e fuel rest w'
 
@@ -142,7 +153,8 @@ def startupW (e : Env) : WSt :=
 def suspendW (e : Env) (w : WSt) : WSt := interp e 64 suspend w
 def resumeW (e : Env) (w : WSt) : WSt := interp e 64 resume w
 
-/-- `Close`: nothing when already closed. -/
-def closeW (e : Env) (closed : Bool) (w : WSt) : WSt := if closed then w else interp e 64 close w
+/-- `Close` (its own early return on `vx.closed` is interpreted from the statement list). The
+    `closed` argument overrides the flag for callers that track it themselves. -/
+def closeW (e : Env) (closed : Bool) (w : WSt) : WSt := interp e 64 close { w with closed := w.closed || closed }
 
 end VaxisModel.Model.Lifecycle
